@@ -111,7 +111,8 @@ def run_impl(scc, talign=0):
     """the implementation on one file: canonical document or ('err', exception class name)"""
     import ttconv.scc.reader as reader
     from ttconv.scc.config import SccReaderConfiguration, TextAlignment
-    cfg = None if talign is None else SccReaderConfiguration(text_align=TextAlignment.from_value(TALIGN[talign]))
+    # talign -1: no configuration at all (the default, text_align auto)
+    cfg = None if talign is None or talign < 0 else SccReaderConfiguration(text_align=TextAlignment.from_value(TALIGN[talign]))
     try:
         doc = reader.to_model(scc, cfg)
     except RecursionError:
@@ -153,7 +154,7 @@ def lit_line(s):
 
 def lit_case(talign, scc, d):
     lines = scc.splitlines()
-    return f"mkCase {talign} [" + "; ".join(lit_line(l) for l in lines) + "]%string\n  " + lit_doc(d)
+    return f"mkCase {max(talign, 0)} [" + "; ".join(lit_line(l) for l in lines) + "]%string\n  " + lit_doc(d)
 
 
 # ------------------------------------------------------------------------------------------------
@@ -281,15 +282,22 @@ class Gen:
                     if n >= target: break
                     pend.append(ord(ch)); n += 1
             elif k < 0.80:
-                flush(); out += self.code(w_special(r.randrange(16))); n += 1
+                flush(); sp = w_special(r.randrange(16)); out += self.code(sp); n += 1
+                if r.random() < 0.15 and n < target:
+                    # the same character again after null padding / a channel-2 block: not the second copy of a doubled code
+                    out += ([0] * r.randint(1, 2) if r.random() < 0.7 else self.ch2_block()) + self.code(sp); n += 1
             elif k < 0.90 and n + 1 <= target:
                 pend.append(ord(r.choice("AEOUaeou-'\"")))
                 flush(); out += self.code(w_ext(r.randrange(64))); n += 1
             elif mid and n + 2 <= target:
-                flush(); out += self.code(w_mid(r.randrange(16))); n += 1
+                flush(); m1 = r.randrange(16); out += self.code(w_mid(m1)); n += 1
+                if r.random() < 0.2 and n + 2 <= target:
+                    # a second mid-row code directly after the first one (each occupies a cell; the second sets the attributes)
+                    out += self.code(w_mid(r.choice([m for m in range(16) if m != m1]))); n += 1
                 pend.append(ord(r.choice("abcXYZ"))); n += 1
             first = False
         flush()
+        self.run_cols = n
         return out
 
     def row_words(self, row, mid=True):
@@ -302,6 +310,31 @@ class Gen:
         if r.random() < 0.35:
             t = r.randint(1, 3); out += self.code(0x1720 + t); col += t
         out += self.text_run(min(30 - col, r.choice([6, 12, 20, 30 - col])), mid)
+        self.row_start, self.row_end = col, col + self.run_cols
+        return out
+
+    def row_again(self, row):
+        """more words for the row just written (pop-on): a second run of text further right (PAC with a larger indent or a
+        tab offset: the gap stays), or a PAC back into the text followed by Delete to End of Row"""
+        r = self.rng; out = []
+        k = r.random()
+        if k < 0.1 and self.row_end % 4 == 0 and 0 < self.row_end <= 24:
+            # a PAC that puts the cursor directly behind the text (recorded finding overwrite-keeps-element-style when the pen differs)
+            out += self.code(w_pac(row, 0x10 + 2 * (self.row_end // 4))) + self.text_run(4, mid=False)
+        elif k < 0.45:
+            ind = (self.row_end // 4) + 1 + r.randrange(2)
+            if 4 * ind > 24: return []
+            out += self.code(w_pac(row, 0x10 + 2 * ind + (r.random() < 0.15)))
+            out += self.text_run(min(30 - 4 * ind, 6), mid=False)
+        elif k < 0.75:
+            t = r.randint(1, 3)
+            if self.row_end + t > 24: return []
+            out += self.code(0x1720 + t)
+            out += self.text_run(min(30 - self.row_end - t, 6), mid=False)
+        else:
+            inds = [i for i in range(8) if self.row_start <= 4 * i < self.row_end]
+            if not inds: return []
+            out += self.code(w_pac(row, 0x10 + 2 * r.choice(inds))) + self.code(DER)
         return out
 
     # The generator keeps track of which rows of the displayed / non-displayed memory hold text, so that a PAC
@@ -327,7 +360,9 @@ class Gen:
             if r.random() < enm_p or len(self.buf) > 15 - nrows:
                 ws += self.code(ENM); self.buf = set()
             rows = self.pick_rows(nrows, self.buf)
-            for row in rows: ws += self.row_words(row)
+            for row in rows:
+                ws += self.row_words(row)
+                if r.random() < 0.12: ws += self.row_again(row)
             self.buf |= set(rows)
             if r.random() < 0.4: ws += self.code(EDM); self.disp = set()
             ws += self.code(EOC); self.disp, self.buf = self.buf, self.disp
@@ -345,6 +380,9 @@ class Gen:
             ws = []
             if i == 0 or r.random() < 0.5 or (erased and r.random() >= self.reuse_p): ws += self.code(depth)
             ws += self.code(CR)
+            if i > 0 and r.random() < 0.1:
+                # a blank line: a second carriage return (not the second copy of a doubled code: a null pair in between)
+                ws += [0] + self.code(CR)
             col = 0
             if r.random() < 0.9 or i == 0:
                 if r.random() < 0.8:
@@ -463,20 +501,22 @@ def gen_wild(rng):
 # verdict of oracle 2 for one case
 # ------------------------------------------------------------------------------------------------
 NONE_CODE = -1000000000
-T_DUP, T_PADDUP, T_LATE, T_BASE, T_ITAL, T_CLEAR, T_DER, T_SPACE, T_ABOVE, T_NEGCUR, T_CLAMP, T_ROW0, T_OVER, T_CR = [1 << i for i in range(14)]
-FINDING_OF_FLAG = {T_DUP: "doubled-code-no-frame", T_PADDUP: "previous-word-survives-padding",
+# trigger flags of Spec/Cea608Screen.v (tDUP ...) and Model/SccReaderCases.v (tABOVE); the values 2, 16, 64, 128, 1024 belonged to
+# findings that have been repaired (previous-word-survives-padding, midrow-italics-resets-colour, der-ignored,
+# painton-space-word-unstyled, pac-right-of-row-content)
+T_DUP, T_LATE, T_BASE, T_CLEAR, T_ABOVE, T_NEGCUR, T_ROW0, T_OVER, T_CR = 1, 4, 8, 32, 256, 512, 2048, 4096, 8192
+FINDING_OF_FLAG = {T_DUP: "doubled-code-no-frame",
                    T_LATE: "text-shown-from-paragraph-begin", T_BASE: "rollup-base-row-forced-15",
-                   T_ITAL: "midrow-italics-resets-colour", T_CLEAR: "painton-pac-clears-row", T_DER: "der-ignored",
-                   T_SPACE: "painton-space-word-unstyled", T_ABOVE: "region-above-attached",
-                   T_OVER: "overwrite-keeps-element-style", T_CR: "cr-erases-non-rollup-caption", T_NEGCUR: "pac-left-of-row-content", T_CLAMP: "pac-right-of-row-content", T_ROW0: "rollup-text-after-edm-row0"}
+                   T_CLEAR: "painton-pac-clears-row", T_ABOVE: "region-above-attached",
+                   T_OVER: "overwrite-keeps-element-style", T_CR: "cr-erases-non-rollup-caption", T_NEGCUR: "pac-left-of-row-content", T_ROW0: "rollup-text-after-edm-row0"}
 # findings whose effect on the text S does not emulate: a case on which one of them fires and no oracle accepts is
 # attributed to it (the generator produces such streams rarely)
-BLIND_FLAGS = T_NEGCUR | T_CLAMP | T_ROW0
-DEV_FLAGS = T_PADDUP | T_BASE | T_ITAL | T_CLEAR | T_DER | T_CR
+BLIND_FLAGS = T_NEGCUR | T_ROW0
+DEV_FLAGS = T_BASE | T_CLEAR | T_CR
 
 
 def judge(codes):
-    """codes = [strict, lenient(g, view) for g in 0..2 for view in 0..2, trigger flags]
+    """codes = [strict, lenient(g, view) for g in 0..2 for view in 0..2, trigger flags, class of the display theorem]
     -> ('ok', []) | ('known', [finding ids]) | ('violation', first rejected frame of the strict oracle)"""
     strict, grid, flags = codes[0], codes[1:10], codes[10]
     if strict == NONE_CODE: return ("ok", [])
@@ -484,12 +524,12 @@ def judge(codes):
         if grid[3 * g + vw] != NONE_CODE: continue
         need = []
         if g == 0 and vw == 0: need.append(DEV_FLAGS)
-        if g == 1: need.append(T_DUP | T_PADDUP)
+        if g == 1: need.append(T_DUP)
         if g == 2: need.append(T_LATE)
-        if vw == 1: need.append(T_SPACE | T_OVER)
+        if vw == 1: need.append(T_OVER)
         if vw == 2: need.append(T_ABOVE)
         if all(flags & n for n in need):
-            adm = DEV_FLAGS | (T_DUP | T_PADDUP if g >= 1 else 0) | (T_LATE if g == 2 else 0) | (T_SPACE | T_OVER if vw >= 1 else 0) | (T_ABOVE if vw == 2 else 0)
+            adm = DEV_FLAGS | (T_DUP if g >= 1 else 0) | (T_LATE if g == 2 else 0) | (T_OVER if vw >= 1 else 0) | (T_ABOVE if vw == 2 else 0)
             return ("known", [FINDING_OF_FLAG[f] for f in FINDING_OF_FLAG if flags & adm & f])
     if flags & BLIND_FLAGS:
         return ("known", [FINDING_OF_FLAG[f] for f in FINDING_OF_FLAG if flags & BLIND_FLAGS & f])
@@ -500,7 +540,7 @@ def judge(codes):
 # case files
 # ------------------------------------------------------------------------------------------------
 HDR = ("From Coq Require Import QArith String.\n"
-       "From TT Require Import Base.Prelude Base.SccDoc Model.SccReader Model.SccReaderCases Spec.Cea608Screen.\n"
+       "From TT Require Import Base.Prelude Base.SccDoc Model.SccReader Model.SccReaderCases Spec.Cea608Screen Proofs.C08.ScreenCases.\n"
        "Open Scope Z_scope.\n")
 
 
@@ -556,7 +596,7 @@ def write_shards(prefix, judged, plain, cap=180000):
                "Definition ps : list case := [\n" + ";\n".join(l for _, l in cur_p) + "].\n"
                "Eval vm_compute in check_all (map (fun k => case_model (s_case k)) js ++ cases_model ps).\n"
                "Eval vm_compute in check_all (map case_parse js).\n"
-               "Eval vm_compute in (map case_spec js).\n")
+               "Eval vm_compute in (map case_spec2 js).\n")
         p = f"{C.GEN}/{prefix}{k}.v"
         with open(p, "w") as f: f.write(txt)
         files.append((p, [i for i, _ in cur_j], [i for i, _ in cur_p]))
@@ -581,7 +621,7 @@ def parse_shard_output(out, nj):
     m3 = re.search(r"= (\[\[.*\]\]) : list \(list Z\)", flat)
     if not m3: return None
     codes = [[int(x) for x in re.findall(r"-?\d+", grp)] for grp in re.findall(r"\[([^\[\]]*)\]", m3.group(1))]
-    if len(codes) != nj or any(len(c) != 11 for c in codes): return None
+    if len(codes) != nj or any(len(c) != 12 for c in codes): return None
     return bad[0], bad[1], codes
 
 
@@ -592,7 +632,7 @@ def evaluate(prefix, cases):
     plain = [(i, lit_case(c["talign"], c["scc"], c["doc"])) for i, c in enumerate(cases) if not c["judged"]]
     C.clean_cases(prefix)
     files = write_shards(prefix, judged, plain)
-    res = C.coqc_many([p for p, _, _ in files], 1500)
+    res = C.coqc_many([p for p, _, _ in files], 1500 if C.tier() == "quick" else 4000)
     broken = []
     for p, jids, pids in files:
         rc, out = res[p]
@@ -609,9 +649,63 @@ def evaluate(prefix, cases):
 
 
 # ------------------------------------------------------------------------------------------------
+# the functions of scc/line.py and scc/config.py that to_model does not call
+# ------------------------------------------------------------------------------------------------
+def aux_cases(rng, sccs):
+    """(style cases, align cases): SccLine.get_style on the lines of the generated files, TextAlignment.from_value on labels"""
+    from ttconv.scc.line import SccLine
+    from ttconv.scc.config import TextAlignment
+    styles = []
+    for scc in sccs:
+        for l in scc.splitlines():
+            try:
+                sl = SccLine.from_str(l)
+            except ValueError:
+                continue
+            if sl is None: continue
+            styles.append(([w.value for w in sl.scc_words], sl.get_style().value))
+    # lines made of one style-selecting code of either channel / field among other words
+    for _ in range(200):
+        ws = [rng.choice([0x1420, 0x1C20, 0x1520, 0x1D20, 0x1425, 0x1C26, 0x1527, 0x1429, 0x1D29, 0x142C, 0x142F, 0x1470, 0x4142, 0x1130, 0])
+              for _ in range(rng.randint(0, 5))]
+        line = "00:00:01:00\t" + " ".join("%04x" % w for w in ws)
+        sl = SccLine.from_str(line)
+        styles.append((ws, sl.get_style().value))
+    labels = ["left", "center", "right", "auto", "", "lef", "leftt", "centre", "l eft", " left", "none", "start", "end", "0", "AUTO "]
+    for lab in ["left", "center", "right", "auto"]:
+        for _ in range(6): labels.append("".join(ch.upper() if rng.random() < 0.5 else ch for ch in lab))
+    aligns = []
+    for lab in labels:
+        try:
+            v = TALIGN.index(TextAlignment.from_value(lab).label)
+        except ValueError:
+            v = -1
+        aligns.append((lab, v))
+    return styles, aligns
+
+
+def evaluate_aux(styles, aligns):
+    """-> (number evaluated, [failing style cases], [failing align cases]) or None when the file did not evaluate"""
+    C.clean_cases("Cases_C08_aux_")
+    txt = (HDR + "Definition ss : list (list Z * Z) := [\n" + ";\n".join("([" + ";".join(map(str, ws)) + f"], {st})" for ws, st in styles) + "].\n"
+           "Definition al : list (string * Z) := [\n" + ";\n".join(f"({C.coq_string(lab)}, {C.z(v)})" for lab, v in aligns) + "]%string.\n"
+           "Eval vm_compute in check_all (map style_case ss).\nEval vm_compute in check_all (map align_case al).\n")
+    p = f"{C.GEN}/Cases_C08_aux_0.v"
+    with open(p, "w") as f: f.write(txt)
+    rc, out = C.coqc_many([p], 900)[p]
+    if rc != 0: rc, out = C.coqc_many([p], 900)[p]      # one retry: a loaded machine may kill the compiler
+    C.clean_cases("Cases_C08_aux_")
+    ms = re.findall(r"=\s*\(\s*(\d+)\s*,\s*(\[[^\]]*\]|nil)\s*\)", " ".join(out.split())) if rc == 0 else []
+    if len(ms) != 2 or int(ms[0][0]) != len(styles) or int(ms[1][0]) != len(aligns): return None
+    bad = [[int(x) for x in re.findall(r"\d+", b)] for _, b in ms]
+    return len(styles) + len(aligns), [styles[i] for i in bad[0]], [aligns[i] for i in bad[1]]
+
+
+# ------------------------------------------------------------------------------------------------
 # the check
 # ------------------------------------------------------------------------------------------------
-PROOF_TARGETS = ["Proofs/C08/Stamps.vo", "Proofs/C08/Words.vo", "Proofs/C08/Protocol.vo", "Proofs/C08/Text.vo", "Model/SccReaderCases.vo", "Spec/Cea608Screen.vo"]
+PROOF_TARGETS = ["Proofs/C08/Stamps.vo", "Proofs/C08/Words.vo", "Proofs/C08/Protocol.vo", "Proofs/C08/Text.vo", "Proofs/C08/ScreenFile.vo", "Proofs/C08/ScreenFinal.vo", "Proofs/C08/ScreenRollStep.vo", "Proofs/C08/ScreenCases.vo",
+                 "Model/SccReaderCases.vo", "Spec/Cea608Screen.vo"]
 
 
 def proposed_findings():
@@ -665,7 +759,7 @@ def main():
     n_proto, n_wild = (300, 100) if run.tier == "quick" else (7500, 2500)
     cases = []
     for s in test_file_streams():
-        for ta in range(4):
+        for ta in (-1, 0, 1, 2, 3):
             # the repository's literal streams exercise edge cases outside the protocols (text before any PAC, rows longer
             # than 32 columns, ...): they are compared with M (oracle 1) and not judged by S
             cases.append(dict(talign=ta, scc=s, kind="seed", judged=None))
@@ -699,6 +793,16 @@ def main():
 
     broken = evaluate("Cases_C08_", cases)
     n_eval = sum(1 for c in cases if "model_ok" in c)
+    styles, aligns = aux_cases(rng, [c["scc"] for c in cases])
+    aux = evaluate_aux(styles, aligns)
+    if aux is None:
+        run.violation("the case file for SccLine.get_style / TextAlignment.from_value did not evaluate",
+                      dict(kind="broken-tie", correspondence="Model/SccReader.v line_style, text_align_of"), found_input=False)
+    else:
+        n_eval += aux[0]
+        if aux[1] or aux[2]:
+            run.violation(f"Model/SccReader.v line_style / text_align_of disagree with SccLine.get_style / TextAlignment.from_value on "
+                          f"{len(aux[1])} lines and {len(aux[2])} labels", dict(kind="broken-tie", style_cases=aux[1][:5], align_cases=aux[2][:5]), found_input=False)
     m_bad = [c for c in cases if c.get("model_ok") is False]
     p_bad = [c for c in cases if c.get("parse_ok") is False]
     verdicts = {}
@@ -711,6 +815,16 @@ def main():
             for fid in v[1]: known_hist[fid] = known_hist.get(fid, 0) + 1
         elif v[0] == "violation":
             viol.append(c)
+    # the class of the pop-on display theorem (Properties/C08.v C08_popon_display): on a stream of the class the model's document
+    # equals the reference display at every stable frame, the code's document equals the model's (oracle 1), so the strict
+    # oracle must accept the code's document; anything else means the tie or the theorem's reading of S is broken
+    class_hist = {}
+    thm_bad = []
+    for c in cases:
+        if not c["judged"] or "codes" not in c: continue
+        k = c["codes"][11]; key = c["kind"] + ":" + {0: "outside", 1: "pop-on class with doubled codes", 2: "display theorem class", 3: "roll-up memory theorem class"}.get(k, str(k))
+        class_hist[key] = class_hist.get(key, 0) + 1
+        if k == 2 and c["codes"][0] != NONE_CODE and c.get("model_ok") is not False: thm_bad.append(c)
     run.log(f"{len(cases)} streams ({sum(1 for c in cases if c['judged'])} judged by S): model/code mismatches {len(m_bad)}, "
             f"parse mismatches {len(p_bad)}, S verdicts {verdicts}, broken case files {len(broken)}")
     for fid, n in sorted(known_hist.items()):
@@ -742,6 +856,10 @@ def main():
                       f"(stream kind {c.get('kind')}, {len(viol)} such streams)",
                       replay_of(small, dict(original=c["scc"], first_rejected_frame=f, count=len(viol),
                                             others=[x["scc"] for x in viol[1:4]])))
+    if thm_bad:
+        c = thm_bad[0]
+        run.violation(f"a stream of the class of theorem C08_popon_display is rejected by the strict oracle at frame {c['codes'][0]} "
+                      f"({len(thm_bad)} such streams): the theorem and the oracle disagree about S", replay_of(c, dict(count=len(thm_bad))))
     if raised:
         c = raised[0]
         run.violation(f"the reader raises {c['doc'][1]} on a stream that follows the protocol", replay_of(c, dict(count=len(raised))))
@@ -780,11 +898,12 @@ def main():
                         "distinct_nontrivial = number of distinct documents.",
                    samples=[dict(kind=c["kind"], scc=c["scc"][:400], verdict=c.get("verdict")) for c in cases[len(cases) // 3:len(cases) // 3 + 3]],
                    stream_kinds=kinds_hist, outcomes=outcome_hist, judged_words=words, s_verdicts=verdicts, findings_hit=known_hist,
-                   model_code_mismatches=len(m_bad), strictly_accepted=verdicts.get("ok", 0))
+                   model_code_mismatches=len(m_bad), strictly_accepted=verdicts.get("ok", 0), display_theorem_class=class_hist,
+                   aux_cases=dict(get_style_lines=len(styles), from_value_labels=len(aligns)))
     run.assumptions += ["S (Spec/Cea608Screen.v) is a reading of CTA-608-E sections 6-7 / 47 CFR 15.119; word attributes come from the C17-verified decoder",
                         "the harness canonicalises the ContentDocument (harness/c08.py canon_doc) and parses the generated files for S (parse_scc_single_rate; cross-checked against M's from_str inside Coq)",
                         "str.splitlines is applied by the harness, not modelled",
-                        "recorded findings are delimited by executable triggers (Spec/Cea608Screen.v triggers, Model/SccReaderCases.v region_above); three of them (pac-left-of-row-content, pac-right-of-row-content, rollup-text-after-edm-row0) excuse a stream as a whole"]
+                        "recorded findings are delimited by executable triggers (Spec/Cea608Screen.v triggers, Model/SccReaderCases.v region_above); two of them (pac-left-of-row-content, rollup-text-after-edm-row0) excuse a stream as a whole"]
     return run.finish(["harness/gen_tables.py (table translator, fail-closed)", "coq/Model/SccWord.v decode (C17)", "coq/Model/TimeCode.v (C12)"])
 
 
